@@ -22,14 +22,19 @@
  * "Accepts" is read in the library's favour: rc >= 0 AND authStatus == PASS AND no authFailFlags.
  * One documented leniency is granted: a single trailing NUL on a dNSName/rfc822Name entry is stripped (x509.c
  * DISABLE_X509_GENERAL_NAME_SUPPORT_C_NULL is not defined) - recorded as lenient:*, not asserted.
+ * Near misses (near_from): expected names that differ in ONE octet from a name the certificate carries (every kind of name, every position, separators
+ * first), evaluated with every nameType / e-mail mFlag through matrixValidateCerts, matrixValidateCertsExt (with and without the expected-name syntax
+ * filter) and - sess_case - through matrixSslNewClientSession handshakes against an in-process server presenting the minted leaf (TLS 1.3 / TLS 1.2, no
+ * certificate callback); plain positive forms are the positive control of that path.  Same reference, same keys (c05:accepts:near-miss-<kind>).
  * DER blobs and expected names live in exact-size heap blocks, so ASan reports any walk over an unterminated name. */
 #include "vf.h"
+#include "mx.h"
 #include "matrixsslApi.h"
 #include "certgen.h"
 
 extern long mx_now;
 static long NOW;
-static cg_key *RK, *LK; static cg_spec RS; static cg_cert RC; static psX509Cert_t *ROOT;
+static cg_key *RK, *LK, *RK2; static cg_spec RS, RS2; static cg_cert RC, RC2; static psX509Cert_t *ROOT;
 
 typedef struct { int kind, len; unsigned char v[100]; } ent;
 typedef struct {
@@ -42,7 +47,9 @@ typedef struct {
     /* names that describe somebody else: GeneralNames of the issuerAltName extension (carrier bit 1; bit 4: emitted BEFORE the subjectAltName)
        and / or of a cRLDistributionPoints fullName (bit 2). The reference never looks at them. */
     int carrier, nian; ent ian[6];
+    int sess;                /* workload only (not part of the replay spec; a replay runs every combination): 0 = no handshake, else the set of SESSCOMBO entries (bit j) to run for the first SAN order */
 } ccase;
+static int is_near(const ccase *c) { return !strncmp(c->cls, "near-miss", 9); }
 
 /* ------------------------------------------------------------------ reference --- */
 static int ieq(const unsigned char *a, int alen, const char *b, int blen)
@@ -147,6 +154,95 @@ static void case_text(const ccase *c, const int *perm, char *o, size_t n)
 
 /* ------------------------------------------------------------------ one case --- */
 static const char *ntname[] = { "ANY", "HOSTNAME", "CN", "SAN_DNS", "SAN_EMAIL", "SAN_IP" };
+/* ------------------------------------------------------------------ minting --- */
+static int mint_leaf(const ccase *c, const int *perm, const cg_key *key, const cg_spec *iss, const cg_key *isskey, cg_cert *lc)
+{
+    cg_spec s; cg_spec_leaf(&s, "Verif C05", NULL, key, iss, isskey, NOW);
+    s.subject.n = 0; cg_dn_add(&s.subject, CG_AT_O, CG_T_UTF8, "Verif C05", 9);
+    for (int i = 0; i < c->ncn; i++) cg_dn_add(&s.subject, CG_AT_CN, c->cn[i].tag, c->cn[i].v, c->cn[i].len);
+    s.nsan = 0; for (int i = 0; i < c->nsan; i++) cg_san_add(&s, c->san[perm[i]].kind, c->san[perm[i]].v, c->san[perm[i]].len);
+    cg_buf dpx = { 0 };
+    if (c->nian && (c->carrier & 1)) { for (int i = 0; i < c->nian; i++) cg_ian_add(&s, c->ian[i].kind, c->ian[i].v, c->ian[i].len); s.ian_first = !!(c->carrier & 4); }
+    if (c->nian && (c->carrier & 2)) {   /* cRLDistributionPoints: one DistributionPoint whose fullName holds the names */
+        static const unsigned char o_cdp[] = { 0x55, 0x1d, 0x1f }; cg_buf v = { 0 }, dps = { 0 }, dp = { 0 }, dpn = { 0 }, full = { 0 };
+        for (int i = 0; i < c->nian; i++) cg_tlv(&full, 0x80 | (c->ian[i].kind & 0x1f) | (c->ian[i].kind == CG_GN_DIR || c->ian[i].kind == CG_GN_OTHER ? 0x20 : 0), c->ian[i].v, c->ian[i].len);
+        cg_wrap(&dpn, 0xa0, &full); cg_wrap(&dp, 0xa0, &dpn); cg_wrap(&dps, 0x30, &dp); cg_wrap(&v, 0x30, &dps); cg_ext(&dpx, o_cdp, 3, 0, &v);
+        s.rawext = dpx.p; s.rawextlen = (int) dpx.n;
+    }
+    int mk = cg_make_cert(&s, lc); cg_buf_free(&dpx);
+    return mk;
+}
+
+/* ------------------------------------------------------------------ client-session path --- */
+/* The same question asked the way an application asks it: matrixSslNewClientSession(expectedName, options.validateCertsOpts{nameType, mFlags}),
+ * no certificate callback (the library's own verdict is final), against a server that presents the minted leaf (Ed25519 leaf for TLS 1.3, a P-256
+ * leaf with the same names under a P-256 root for TLS 1.2 ECDHE-ECDSA).  "Accepts" = the client reports the handshake complete. */
+static const struct { int ver; uint16_t suite; int nt; unsigned mflags; } SESSCOMBO[16] = {
+    { MX_TLS13, 0x1301, NAME_TYPE_ANY, 0 }, { MX_TLS13, 0x1301, NAME_TYPE_HOSTNAME, 0 }, { MX_TLS13, 0x1301, NAME_TYPE_CN, 0 }, { MX_TLS13, 0x1301, NAME_TYPE_SAN_DNS, 0 },
+    { MX_TLS13, 0x1301, NAME_TYPE_SAN_EMAIL, 0 }, { MX_TLS13, 0x1301, NAME_TYPE_SAN_IP_ADDRESS, 0 }, { MX_TLS13, 0x1301, NAME_TYPE_SAN_EMAIL, VCERTS_MFLAG_SAN_EMAIL_CASE_INSENSITIVE_LOCAL_PART }, { MX_TLS13, 0x1301, NAME_TYPE_ANY, VCERTS_MFLAG_SAN_EMAIL_CASE_INSENSITIVE_LOCAL_PART },
+    { MX_TLS12, 0xc02b, NAME_TYPE_ANY, 0 }, { MX_TLS12, 0xc02b, NAME_TYPE_HOSTNAME, 0 }, { MX_TLS12, 0xc02b, NAME_TYPE_CN, 0 }, { MX_TLS12, 0xc02b, NAME_TYPE_SAN_DNS, 0 },
+    { MX_TLS12, 0xc02b, NAME_TYPE_SAN_EMAIL, 0 }, { MX_TLS12, 0xc02b, NAME_TYPE_SAN_IP_ADDRESS, 0 }, { MX_TLS12, 0xc02b, NAME_TYPE_SAN_EMAIL, VCERTS_MFLAG_SAN_EMAIL_CASE_INSENSITIVE_LOCAL_PART }, { MX_TLS12, 0xc02b, NAME_TYPE_ANY, VCERTS_MFLAG_SAN_EMAIL_CASE_INSENSITIVE_LOCAL_PART },
+};
+static sslKeys_t *TRUST; static cg_key *LK2; static int g_replay;
+static sslKeys_t *sess_server_keys(const cg_cert *lc, cg_key *key)
+{
+    sslKeys_t *pk = NULL; char *cp = cg_pem("CERTIFICATE", lc->der, lc->len), *kp = cg_key_priv_pem(key, 0); int rc = -1;
+    MX_ENTER(); if (cp && kp && matrixSslNewKeys(&pk, NULL) >= 0) rc = matrixSslLoadKeysMem(pk, (unsigned char *) cp, (int32) strlen(cp), (unsigned char *) kp, (int32) strlen(kp), NULL, 0, NULL);
+    if (rc < 0 && pk) { matrixSslDeleteKeys(pk); pk = NULL; } MX_LEAVE();
+    free(cp); free(kp); return pk;
+}
+/* 1 client completed, 0 it did not, -1 harness trouble; *newrc = return of matrixSslNewClientSession */
+static int sess_one(sslKeys_t *pk, int combo, const char *name, int *newrc)
+{
+    mx_cfg cfg = { .ver = SESSCOMBO[combo].ver, .suite = SESSCOMBO[combo].suite, .skeys = pk, .ckeys = TRUST, .expectedName = name, .noCallback = 1 };
+    mx_conn k; memset(&k, 0, sizeof k); k.cfg = cfg; sslSessOpts_t o; psCipher16_t cs[1] = { cfg.suite };
+    if (mx_new_server(&k.s, &cfg) < 0) { k.s.ssl = NULL; mx_conn_close(&k); return -1; }
+    mx_opts(&o, &cfg, MX_CLIENT); o.validateCertsOpts.nameType = SESSCOMBO[combo].nt; o.validateCertsOpts.mFlags = SESSCOMBO[combo].mflags;
+    k.c.role = MX_CLIENT; k.c.ver = cfg.ver; k.c.id = 0; k.c.name = "C"; k.c.wantTake = 1;
+    size_t L = strlen(name); char *x = malloc(L + 1); memcpy(x, name, L + 1);   /* exact-size block */
+    mx_actor = 0; MX_ENTER(); int rc = matrixSslNewClientSession(&k.c.ssl, TRUST, NULL, cs, 1, NULL, x, NULL, NULL, &o); MX_LEAVE();
+    *newrc = rc;
+    if (rc < 0) { k.c.ssl = NULL; free(x); mx_conn_close(&k); return 0; }
+    mx_conn_run(&k, NULL, NULL, 300);
+    int acc = k.c.hsDone && !k.c.dead && matrixSslHandshakeIsComplete(k.c.ssl);
+    free(x); mx_conn_close(&k);
+    return acc;
+}
+/* all session evaluations of one case (first SAN order only); lc = the Ed25519 leaf already minted for that order */
+static void sess_case(const ccase *c, const int *perm, const cg_cert *lc, unsigned combos, const char *spec, const char *text)
+{
+    sslKeys_t *pk[2] = { NULL, NULL }; int tried[2] = { 0, 0 }, reported = 0;
+    for (int j = 0; j < 16; j++) if (combos & (1u << j)) {
+        int v = j >= 8;
+        if (!tried[v]) {
+            tried[v] = 1;
+            if (!v) pk[0] = sess_server_keys(lc, LK);
+            else { cg_cert l2; if (mint_leaf(c, perm, LK2, &RS2, RK2, &l2) >= 0) { pk[1] = sess_server_keys(&l2, LK2); cg_cert_free(&l2); } }
+            if (!pk[v]) vf_stat("session_server_refuses_to_load_leaf", 1);
+        }
+        if (!pk[v]) continue;
+        int newrc = 0, acc = sess_one(pk[v], j, c->E, &newrc), nt = SESSCOMBO[j].nt;
+        if (acc < 0) { vf_incon("server session could not be created (%s)", mx_vername[SESSCOMBO[j].ver]); continue; }
+        int rs = ref_match(c, c->san, c->nsan, c->E, nt, 0), rl = rs || ref_match(c, c->san, c->nsan, c->E, nt, 1);
+        vf_stat("cases", 1); vf_stat("session_evals", 1); vf_stat(acc ? "session_completes" : newrc < 0 ? "session_name_refused_at_creation" : "session_refused", 1);
+        if (g_replay) fprintf(stderr, "  session %s suite %04x name=\"%s\" nt=%s mflags=%u new=%d lib=%d ref=%d/%d\n", mx_vername[SESSCOMBO[j].ver], SESSCOMBO[j].suite, c->E, ntname[nt], SESSCOMBO[j].mflags, newrc, acc, rs, rl);
+        if (acc && !rl && !reported) {
+            char key[100]; snprintf(key, sizeof key, "c05:accepts:%s", c->cls);
+            vf_violation(key, spec, "client session with expected name \"%s\" (%s, validateCertsOpts.nameType %s, mFlags %u, no certificate callback) completes the handshake with a server whose certificate does not carry that name | %s",
+                         c->E, mx_vername[SESSCOMBO[j].ver], ntname[nt], SESSCOMBO[j].mflags, text);
+            reported = 1;
+        }
+        if (acc && rl) vf_stat("session_ref_and_lib_accept", 1);
+        if (!acc && rs && c->canonical && newrc >= 0 && !reported) {
+            char key[100]; snprintf(key, sizeof key, "c05:rejects-canonical:%s", c->cls);
+            vf_violation(key, spec, "client session with expected name \"%s\" (%s, validateCertsOpts.nameType %s, mFlags %u) refuses a server certificate that carries the name in plain positive form | %s",
+                         c->E, mx_vername[SESSCOMBO[j].ver], ntname[nt], SESSCOMBO[j].mflags, text);
+            reported = 1;
+        }
+    }
+    MX_ENTER(); for (int v = 0; v < 2; v++) if (pk[v]) matrixSslDeleteKeys(pk[v]); MX_LEAVE();
+}
+
 static int g_sample;
 static int next_perm(int *p, int n)   /* lexicographic successor */
 {
@@ -160,6 +256,17 @@ static int build_evals(const ccase *c, evalspec *ev)
 {
     int n = 0; char alt[64]; size_t L = strlen(c->E);
     for (size_t i = 0; i <= L; i++) { char ch = c->E[i]; alt[i] = (ch >= 'a' && ch <= 'z') ? ch - 32 : (ch >= 'A' && ch <= 'Z') ? ch + 32 : ch; }
+    if (is_near(c)) {
+        /* near-miss expected names: default flags through both entry points, then EVERY nameType and both e-mail modes without the
+           expected-name syntax filter in front of the matcher (api 2), and the near miss in other case */
+        { evalspec e = { "", NAME_TYPE_ANY, 0, 0, 1 }; strcpy(e.name, c->E); ev[n++] = e; }
+        { evalspec e = { "", NAME_TYPE_ANY, 0, 1, 1 }; strcpy(e.name, c->E); ev[n++] = e; }
+        static const int every[] = { NAME_TYPE_ANY, NAME_TYPE_HOSTNAME, NAME_TYPE_CN, NAME_TYPE_SAN_DNS, NAME_TYPE_SAN_EMAIL, NAME_TYPE_SAN_IP_ADDRESS };
+        for (int i = 0; i < 6; i++) { evalspec e = { "", every[i], 0, 2, 1 }; strcpy(e.name, c->E); ev[n++] = e; }
+        { evalspec e = { "", NAME_TYPE_SAN_EMAIL, VCERTS_MFLAG_SAN_EMAIL_CASE_INSENSITIVE_LOCAL_PART, 2, 1 }; strcpy(e.name, c->E); ev[n++] = e; e.nt = NAME_TYPE_ANY; ev[n++] = e; }
+        if (strcmp(alt, c->E)) { evalspec e = { "", NAME_TYPE_ANY, 0, 2, 0 }; strcpy(e.name, alt); ev[n++] = e; }
+        return n;
+    }
     static const int nts[3][3] = { { NAME_TYPE_ANY, NAME_TYPE_HOSTNAME, NAME_TYPE_SAN_DNS }, { NAME_TYPE_ANY, NAME_TYPE_SAN_EMAIL, -1 }, { NAME_TYPE_ANY, NAME_TYPE_SAN_IP_ADDRESS, -1 } };
     for (int i = 0; i < 3; i++) if (nts[c->kindE][i] >= 0) { evalspec e = { "", nts[c->kindE][i], 0, 1, 1 }; strcpy(e.name, c->E); ev[n++] = e; }
     if (c->kindE == 1) { evalspec e = { "", NAME_TYPE_SAN_EMAIL, VCERTS_MFLAG_SAN_EMAIL_CASE_INSENSITIVE_LOCAL_PART, 1, 1 }; strcpy(e.name, c->E); ev[n++] = e; }
@@ -181,20 +288,7 @@ static void run_case(const ccase *c)
     case_text(c, NULL, text, sizeof text);
     if (g_sample) vf_sample("%s", text);
     do {
-        /* mint */
-        cg_spec s; cg_spec_leaf(&s, "Verif C05", NULL, LK, &RS, RK, NOW);
-        s.subject.n = 0; cg_dn_add(&s.subject, CG_AT_O, CG_T_UTF8, "Verif C05", 9);
-        for (int i = 0; i < c->ncn; i++) cg_dn_add(&s.subject, CG_AT_CN, c->cn[i].tag, c->cn[i].v, c->cn[i].len);
-        s.nsan = 0; for (int i = 0; i < c->nsan; i++) cg_san_add(&s, c->san[perm[i]].kind, c->san[perm[i]].v, c->san[perm[i]].len);
-        cg_buf dpx = { 0 };
-        if (c->nian && (c->carrier & 1)) { for (int i = 0; i < c->nian; i++) cg_ian_add(&s, c->ian[i].kind, c->ian[i].v, c->ian[i].len); s.ian_first = !!(c->carrier & 4); }
-        if (c->nian && (c->carrier & 2)) {   /* cRLDistributionPoints: one DistributionPoint whose fullName holds the names */
-            static const unsigned char o_cdp[] = { 0x55, 0x1d, 0x1f }; cg_buf v = { 0 }, dps = { 0 }, dp = { 0 }, dpn = { 0 }, full = { 0 };
-            for (int i = 0; i < c->nian; i++) cg_tlv(&full, 0x80 | (c->ian[i].kind & 0x1f) | (c->ian[i].kind == CG_GN_DIR || c->ian[i].kind == CG_GN_OTHER ? 0x20 : 0), c->ian[i].v, c->ian[i].len);
-            cg_wrap(&dpn, 0xa0, &full); cg_wrap(&dp, 0xa0, &dpn); cg_wrap(&dps, 0x30, &dp); cg_wrap(&v, 0x30, &dps); cg_ext(&dpx, o_cdp, 3, 0, &v);
-            s.rawext = dpx.p; s.rawextlen = (int) dpx.n;
-        }
-        cg_cert lc; int mk = cg_make_cert(&s, &lc); cg_buf_free(&dpx); if (mk < 0) { vf_incon("certgen failed"); return; }
+        cg_cert lc; if (mint_leaf(c, perm, LK, &RS, RK, &lc) < 0) { vf_incon("certgen failed"); return; }
         psX509Cert_t *leaf = NULL; int prc = psX509ParseCert(NULL, lc.der, lc.len, &leaf, 0);
         uint32 flags0 = prc >= 0 ? leaf->authFailFlags : 0;
         vf_stat(prc >= 0 ? "certs_parsed" : "certs_rejected_by_parser", 1);
@@ -204,7 +298,7 @@ static void run_case(const ccase *c)
                 size_t L = strlen(ev[k].name); char *x = malloc(L + 1); memcpy(x, ev[k].name, L + 1);   /* exact-size block */
                 psX509Cert_t *found = NULL; leaf->authStatus = 0; leaf->authFailFlags = flags0; ROOT->authStatus = 0;
                 if (ev[k].api == 0) rc = matrixValidateCerts(NULL, leaf, ROOT, x, &found, NULL, NULL);
-                else { matrixValidateCertsOptions_t o; memset(&o, 0, sizeof o); o.nameType = ev[k].nt; o.mFlags = ev[k].mflags; o.flags = VCERTS_FLAG_VALIDATE_EXPECTED_GENERAL_NAME;
+                else { matrixValidateCertsOptions_t o; memset(&o, 0, sizeof o); o.nameType = ev[k].nt; o.mFlags = ev[k].mflags; o.flags = ev[k].api == 1 ? VCERTS_FLAG_VALIDATE_EXPECTED_GENERAL_NAME : 0;
                        rc = matrixValidateCertsExt(NULL, leaf, ROOT, x, &found, NULL, NULL, &o); }
                 acc = rc >= 0 && leaf->authStatus == PS_CERT_AUTH_PASS && leaf->authFailFlags == 0;
                 free(x);
@@ -217,7 +311,7 @@ static void run_case(const ccase *c)
                 char key[100], pt[1200]; case_text(c, perm, pt, sizeof pt);
                 snprintf(key, sizeof key, "c05:accepts:%s", ev[k].unrel ? "unrelated" : c->cls);
                 vf_violation(key, spec, "library accepts expected name \"%s\" (nameType %s, mFlags %u, %s) for a certificate that does not carry it | %s | rc=%d", ev[k].name, ntname[ev[k].nt], ev[k].mflags,
-                             ev[k].api ? "matrixValidateCertsExt" : "matrixValidateCerts", pt, rc);
+                             ev[k].api == 1 ? "matrixValidateCertsExt+VALIDATE_EXPECTED_GENERAL_NAME" : ev[k].api ? "matrixValidateCertsExt" : "matrixValidateCerts", pt, rc);
                 reported_acc = 1;
             }
             if (acc && rl && !rs) vf_stat("lenient:trailing-nul-san-entry-accepted", 1);
@@ -226,10 +320,11 @@ static void run_case(const ccase *c)
             if (vf_case) { char pt[1200]; case_text(c, perm, pt, sizeof pt); fprintf(stderr, "  perm#%d name=\"%s\" nt=%s mflags=%u api=%d parse=%d rc=%d lib=%d ref=%d/%d | %s\n", nperm, ev[k].name, ntname[ev[k].nt], ev[k].mflags, ev[k].api, prc, rc, acc, rs, rl, pt); }
         }
         if (leaf) psX509FreeCert(leaf);
+        if (nperm == 0 && prc >= 0) { unsigned combos = g_replay ? (is_near(c) || (c->canonical && !c->nian) ? 0xffffu : 0) : (unsigned) c->sess; if (combos) sess_case(c, perm, &lc, combos, spec, text); }
         cg_cert_free(&lc);
         nperm++;
     } while (c->nsan > 1 && next_perm(perm, c->nsan));
-    vf_stat("cert_cases", 1); vf_stat("permutations", nperm);
+    vf_stat("cert_cases", 1); vf_stat("permutations", nperm); if (is_near(c)) vf_statf(1, "cert_cases:%s", c->cls);
     for (int k = 0; k < nev; k++) if (differs[k]) {
         vf_violation("c05:order-dependent", spec, "verdict for expected name \"%s\" (nameType %s) depends on the order of the subjectAltName entries | %s", ev[k].name, ntname[ev[k].nt], text);
         break;
@@ -470,6 +565,71 @@ static void rand_label(char *o, int minl, int maxl)
     if (n >= 4 && vf_below(&G, 3) == 0) o[1 + vf_below(&G, n - 2)] = '-';
     o[n] = 0;
 }
+/* ------------------------------------------------------------------ near misses --- */
+/* Expected names that differ from a name the certificate DOES carry in exactly one octet (same length): every position of every carried name of every kind
+ * (dNSName, wildcard dNSName, rfc822Name, URI, the text of an iPAddress, CN).  Separators ('.', '@', ':', '/', '-', '*') are replaced by each other and by
+ * ordinary characters, ordinary characters by their neighbour, by separators, by themselves with bit 5 / bit 7 flipped (what a home-made case fold or a
+ * 7-bit comparison would equate).  A letter in other case is a legitimate match and the reference says so.  The certificate is `base` (E is filled in here). */
+static long near_serial, near_sess_serial;
+static int is_sep(int ch) { return ch == '.' || ch == '@' || ch == ':' || ch == '/' || ch == '-' || ch == '*'; }
+static void near_from(const ccase *base, const char *kind, int kindE, const char *N, int sess_ok, int seps_only)
+{
+    size_t L = strlen(N); if (L < 2 || L >= sizeof base->E) return;
+    for (size_t i = 0; i < L; i++) {
+        unsigned char ch = (unsigned char) N[i], subs[160]; int ns = 0, sep = is_sep(ch);
+        if (seps_only && !sep) continue;
+        unsigned char succ = (ch >= '0' && ch < '9') || (ch >= 'a' && ch < 'z') || (ch >= 'A' && ch < 'Z') ? ch + 1 : ch == '9' ? '0' : ch == 'z' ? 'a' : ch == 'Z' ? 'A' : 'x';
+        const unsigned char cand[] = { '.', '@', '-', ':', '/', '_', '*', 'x', '0', ' ', (unsigned char) (ch ^ 0x20), (unsigned char) (ch ^ 0x80), succ, '%', '\\', 0x01 };
+        const int ncand = (int) sizeof cand;
+        if (vf_thorough && sep && !seps_only) { for (int x = 0x20; x < 0x7f; x++) subs[ns++] = (unsigned char) x; subs[ns++] = ch ^ 0x80; subs[ns++] = 0x01; subs[ns++] = 0xff; }
+        else if (vf_thorough) for (int j = 0; j < ncand; j++) subs[ns++] = cand[j];
+        else if (sep && !seps_only) { for (int j = 0; j < 6; j++) subs[ns++] = cand[j == 5 ? 7 : j]; subs[ns++] = cand[10]; subs[ns++] = cand[11]; }   /* quick: the other separators, a letter, bit 5, bit 7 */
+        else if (sep) { for (int j = 0; j < 3; j++) subs[ns++] = cand[(near_serial + i + j * 5) % 9]; }                       /* certificates with several names, quick: three other separators / plain characters */
+        else subs[ns++] = (near_serial + i) % 3 ? cand[(near_serial + i) % ncand] : succ;                                     /* ordinary position, quick: one rotating candidate */
+        for (int j = 0; j < ns; j++) {
+            if (!subs[j] || subs[j] == ch) continue;
+            int dup = 0; for (int q = 0; q < j; q++) if (subs[q] == subs[j]) dup = 1; if (dup) continue;
+            ccase c = *base; snprintf(c.cls, sizeof c.cls, "near-miss-%s", kind); memcpy(c.E, N, L + 1); c.E[i] = (char) subs[j]; c.kindE = kindE; c.canonical = 0;
+            /* handshakes: names the session API takes, at the separators (thorough: also a sample of the other positions). quick: one handshake per case, default options two times out of three (alternating protocol version), else a rotating nameType / mFlags; thorough: default options in both versions + a rotating one, every combination for the candidate substitutes at the separators */
+            int incand = 0; for (int q = 0; q < ncand; q++) if (cand[q] == subs[j]) incand = 1;
+            if (sess_ok && psX509ValidateGeneralName(c.E) >= 0 && ((sep && (incand || subs[j] % 3 == 0)) || (vf_thorough && (near_serial + i) % 4 == 0))) {
+                long q = near_sess_serial++;
+                c.sess = (q % 3) != 2 ? (1 << ((q & 1) * 8)) : (1 << ((((q >> 1) & 1) * 8) + 1 + (int) ((q / 3) % 7)));
+                if (vf_thorough) c.sess |= (1 << 0) | (1 << 8) | (sep && !seps_only && incand ? 0xffff : 0);
+            }
+            push(&c);
+        }
+    }
+    near_serial++;
+}
+static void near_single(const char *kind, int kindE, int gk, const void *v, int len, const char *N, int nshapes)
+{
+    ccase b; memset(&b, 0, sizeof b); ent F; set_ent(&F, gk, v, len);
+    b.nsan = 1; b.san[0] = F; near_from(&b, kind, kindE, N, 1, 0);
+    /* the same entry among fillers of other kinds (all SAN orders): separators only */
+    for (int k = 0; k < nshapes; k++) { long at = ncases; with_shape(&b, &F, 1 + (int) ((near_serial + k * 3) % (NSHAPE - 1))); ccase sh = CASES[at]; ncases = at; near_from(&sh, kind, kindE, N, 0, 1); }
+}
+static void near_host(const char *H, int uri)
+{
+    char x[100]; size_t L = strlen(H); const char *d1 = strchr(H, '.');
+    near_single("dns", 0, CG_GN_DNS, H, (int) L, H, vf_thorough ? 3 : 1);
+    if (d1) { snprintf(x, sizeof x, "*%s", d1); near_single("wildcard", 0, CG_GN_DNS, x, (int) strlen(x), x, vf_thorough ? 2 : 0); }
+    { ccase b; memset(&b, 0, sizeof b); b.ncn = 1; b.cn[0].tag = CG_T_UTF8; b.cn[0].len = (int) L; memcpy(b.cn[0].v, H, L); near_from(&b, "cn", 0, H, 1, 0);
+      /* CN next to a SAN without any supported entry: the CN is still the name */
+      ent_str(&b.san[b.nsan++], CG_GN_URI, "http://filler.test/"); near_from(&b, "cn", 0, H, 0, 1); }
+    if (uri) { snprintf(x, sizeof x, "https://%s/", H); if (strlen(x) < 60) near_single("uri", 0, CG_GN_URI, x, (int) strlen(x), x, 0); }
+}
+static void near_mail(const char *M) { near_single("email", 1, CG_GN_EMAIL, M, (int) strlen(M), M, vf_thorough ? 3 : 1); }
+static void near_ip(const unsigned char o[4]) { char t[32]; snprintf(t, sizeof t, "%u.%u.%u.%u", o[0], o[1], o[2], o[3]); near_single("ip", 2, CG_GN_IP, o, 4, t, vf_thorough ? 2 : 0); }
+/* one certificate carrying a name of every kind at once: near misses of each of them (separator positions), every SAN order */
+static void near_mixed(const char *H, const char *M, const unsigned char o[4], const char *CN)
+{
+    ccase b; memset(&b, 0, sizeof b); char u[100], t[32]; snprintf(u, sizeof u, "https://%s/", H); snprintf(t, sizeof t, "%u.%u.%u.%u", o[0], o[1], o[2], o[3]);
+    b.ncn = 1; b.cn[0].tag = CG_T_UTF8; b.cn[0].len = (int) strlen(CN); memcpy(b.cn[0].v, CN, b.cn[0].len);
+    int with_uri = vf_thorough && strlen(u) < 60;      /* quick: three entries (6 orders), thorough: four (24 orders) */
+    ent_str(&b.san[b.nsan++], CG_GN_DNS, H); ent_str(&b.san[b.nsan++], CG_GN_EMAIL, M); if (with_uri) ent_str(&b.san[b.nsan++], CG_GN_URI, u); set_ent(&b.san[b.nsan++], CG_GN_IP, o, 4);
+    near_from(&b, "dns", 0, H, 1, 1); near_from(&b, "email", 1, M, 1, 1); if (with_uri) near_from(&b, "uri", 0, u, 0, 1); near_from(&b, "ip", 2, t, 1, 1); near_from(&b, "cn", 0, CN, 0, 1);
+}
 static void build_workload(void)
 {
     /* fixed grid (identical for every seed): hosts of 1-4 labels with digits and hyphens, e-mail, IPv4 of every textual length 7..15 */
@@ -485,9 +645,20 @@ static void build_workload(void)
     int extra_hosts = vf_thorough ? 40 : 6, extra_mails = vf_thorough ? 20 : 2, extra_ips = vf_thorough ? 150 : 6;
     vf_rng_init(&G, vf_seed, 0xc05);
     for (int i = 0; i < extra_hosts; i++) { char E[64], l[24]; int n = 1 + (i % 4); E[0] = 0; for (int j = 0; j < n; j++) { rand_label(l, j == n - 1 ? 2 : 1, 10); if (j) strcat(E, "."); strcat(E, l); }
-                                           if (E[strlen(E) - 1] == '-' ) E[strlen(E) - 1] = 'z'; host_cases(E); }
-    for (int i = 0; i < extra_mails; i++) { char E[64], a[24], b[24], c[24]; rand_label(a, 1, 8); rand_label(b, 2, 8); rand_label(c, 2, 4); if (a[0] >= '0' && a[0] <= '9') a[0] = 'm'; snprintf(E, sizeof E, "%s@%s.%s", a, b, c); email_cases(E); }
-    for (int i = 0; i < extra_ips; i++) { unsigned char o[4]; for (int j = 0; j < 4; j++) { int d = 1 + (int) vf_below(&G, 3); o[j] = (unsigned char) (d == 1 ? vf_below(&G, 10) : d == 2 ? 10 + vf_below(&G, 90) : 100 + vf_below(&G, 156)); } ip_cases(o); }
+                                           if (E[strlen(E) - 1] == '-' ) E[strlen(E) - 1] = 'z'; host_cases(E); if (i < (vf_thorough ? 16 : 4)) near_host(E, vf_thorough); }
+    for (int i = 0; i < extra_mails; i++) { char E[64], a[24], b[24], c[24]; rand_label(a, 1, 8); rand_label(b, 2, 8); rand_label(c, 2, 4); if (a[0] >= '0' && a[0] <= '9') a[0] = 'm'; snprintf(E, sizeof E, "%s@%s.%s", a, b, c); email_cases(E); if (i < (vf_thorough ? 8 : 2)) near_mail(E); }
+    for (int i = 0; i < extra_ips; i++) { unsigned char o[4]; for (int j = 0; j < 4; j++) { int d = 1 + (int) vf_below(&G, 3); o[j] = (unsigned char) (d == 1 ? vf_below(&G, 10) : d == 2 ? 10 + vf_below(&G, 90) : 100 + vf_below(&G, 156)); } ip_cases(o);
+                                          if (i < (vf_thorough ? 24 : 4)) near_ip(o); }
+    /* near misses of the same names (fixed grid + the seeded ones above) */
+    for (size_t i = 0; i < sizeof hosts / sizeof *hosts; i++) near_host(hosts[i], vf_thorough || i % 3 == 1);
+    for (size_t i = 0; i < sizeof mails / sizeof *mails; i++) near_mail(mails[i]);
+    for (size_t i = 0; i < sizeof ips / sizeof *ips; i++) if (vf_thorough || i < 9) near_ip(ips[i]);          /* textual lengths 7..15 */
+    for (size_t i = 0; i < (vf_thorough ? 8 : 2); i++) near_mixed(hosts[(i + 1) % 8], mails[i % 3], ips[(i * 5 + 6) % 16], hosts[(i + 4) % 8]);
+    /* positive controls of the client-session path: plain positive forms on single-entry / CN-only certificates must complete (default options in both versions + the specific type) */
+    { long q = 0; for (long i = 0; i < ncases; i++) { ccase *c = &CASES[i];
+        if (!c->canonical || c->nian || c->nsan > 1 || (c->nsan == 1 && c->ncn)) continue;
+        if (!vf_thorough && (q++ % 6)) continue;
+        c->sess = (1 << 0) | (1 << 8) | (1 << (((q >> 1) & 1) * 8 + (c->kindE == 1 ? 4 : c->kindE == 2 ? 5 : c->nsan ? 3 : 2))); } }
 }
 
 typedef struct { long from, to; const long *idx; int sample; } batch_t;
@@ -513,7 +684,13 @@ int main(int argc, char **argv)
     cg_spec_ca(&RS, "Verif C05", "C05 Root", RK, NULL, NULL, NOW, -1);
     if (cg_make_cert(&RS, &RC) < 0) return 2;
     { char *pem = cg_pem("CERTIFICATE", RC.der, RC.len); if (psX509ParseCertData(NULL, (unsigned char *) pem, strlen(pem), &ROOT, CERT_STORE_DN_BUFFER | CERT_ALLOW_BUNDLE_PARTIAL_PARSE) <= 0 || !ROOT) { fprintf(stderr, "root does not load\n"); return 2; } free(pem); }
+    LK2 = cg_key_get(CG_K_P256, 0); RK2 = cg_key_get(CG_K_P256, 1); mx_entropy_seed(vf_seed);
+    cg_spec_ca(&RS2, "Verif C05", "C05 Root P-256", RK2, NULL, NULL, NOW, -1);
+    if (cg_make_cert(&RS2, &RC2) < 0) return 2;
+    { char *p1 = cg_pem("CERTIFICATE", RC.der, RC.len), *p2 = cg_pem("CERTIFICATE", RC2.der, RC2.len); size_t a = strlen(p1), b = strlen(p2); char *pem = malloc(a + b + 1); memcpy(pem, p1, a); memcpy(pem + a, p2, b + 1);
+      if (matrixSslNewKeys(&TRUST, NULL) < 0 || matrixSslLoadKeysMem(TRUST, NULL, 0, NULL, 0, (unsigned char *) pem, (int32) (a + b), NULL) < 0) { fprintf(stderr, "trust anchors do not load\n"); return 2; } free(pem); free(p1); free(p2); }
     if (vf_case) {
+        g_replay = 1;
         ccase c; if (spec_parse(vf_case, &c) < 0) { vf_incon("unparsable case spec: %s", vf_case); vf_flush(); return 2; }
         replay_one(&c, "c05");
     } else {
@@ -536,7 +713,7 @@ int main(int argc, char **argv)
         }
         free(mine); free(CASES);
     }
-    psX509FreeCert(ROOT); cg_cert_free(&RC);
+    matrixSslDeleteKeys(TRUST); psX509FreeCert(ROOT); cg_cert_free(&RC); cg_cert_free(&RC2);
     vf_flush(); matrixSslClose();
     return 0;
 }
